@@ -501,6 +501,29 @@ func runC07(c *Cfg) {
 			}
 		}
 	}
+	// a pipeline of two batches: what the first one hands on (rescued items included) is processed by the second like
+	// any freshly made item
+	for _, cc := range []int{0, 1, 4} {
+		for _, budget := range []int{1, 2, 3} {
+			if !c.Mine(cc + budget + 1) {
+				continue
+			}
+			n, bad := 5, 2
+			att, ok, err := chainedBatchRun(cc, budget, n, bad)
+			r.Eval()
+			r.Count("chained_batches.runs", 1)
+			cb := map[string]any{"family": "chained-batches", "c": cc, "budget": budget, "n": n, "bad": bad}
+			if err == nil {
+				for i := 0; i < n; i++ {
+					if att[i] != 1 {
+						r.Violate("C07", "C07:chained-batch-item-not-processed-once", fmt.Sprintf("two batches in a row (concurrency %d, budget %d): item %d of the second batch (in the first batch item %d failed every attempt and its fallback handed the item back) was executed %d times, want exactly once; %d of %d slots hold what exec returned", cc, budget, i, bad, att[i], ok, n), cb)
+						break
+					}
+				}
+			}
+			r.Nontrivial(fmt.Sprintf("cb %d %d", cc, budget))
+		}
+	}
 	// all failures are the same error VALUE (a shared sentinel): an item whose budget is exhausted says nothing about
 	// another item's budget
 	for _, cc := range []int{0, 1, 2, 4} {
@@ -978,6 +1001,56 @@ func dupStopRun(cc int, kind string, f int) (executed []int, okSlots []int, n in
 	return
 }
 
+// chainedBatchRun: the result list of one batch is the item list of the next (a two-stage pipeline). In stage 1 item
+// `bad` fails every attempt and its fallback hands back the item it was given, unchanged. Stage 2 must process every
+// item exactly like a freshly made one: attempts[i] counts stage 2's exec calls per item.
+func chainedBatchRun(cc, budget, n, bad int) (attempts []int32, slotsOK int, err error) {
+	var stage1 []flyt.Result
+	mk := func() *flyt.BatchNodeBuilder {
+		return flyt.NewBatchNode(flyt.WithExecFallbackFunc(func(p any, e error) (any, error) { return p, nil })).WithBatchConcurrency(cc).WithMaxRetries(budget)
+	}
+	s1 := mk().
+		WithPrepFunc(func(ctx context.Context, s *flyt.SharedStore) ([]flyt.Result, error) {
+			r := make([]flyt.Result, n)
+			for i := range r {
+				r[i] = flyt.NewResult(i)
+			}
+			return r, nil
+		}).
+		WithExecFunc(func(ctx context.Context, it flyt.Result) (flyt.Result, error) {
+			if it.Value() == any(bad) {
+				return flyt.Result{}, fmt.Errorf("stage 1: item %d fails", bad)
+			}
+			return it, nil
+		}).
+		WithPostFunc(func(ctx context.Context, s *flyt.SharedStore, items, results []flyt.Result) (flyt.Action, error) {
+			stage1 = append([]flyt.Result(nil), results...)
+			return "next", nil
+		})
+	if _, err = flyt.Run(context.Background(), s1, flyt.NewSharedStore()); err != nil {
+		return
+	}
+	attempts = make([]int32, n)
+	s2 := mk().
+		WithPrepFunc(func(ctx context.Context, s *flyt.SharedStore) ([]flyt.Result, error) { return stage1, nil }).
+		WithExecFunc(func(ctx context.Context, it flyt.Result) (flyt.Result, error) {
+			if i, ok := it.Value().(int); ok && i >= 0 && i < n {
+				atomic.AddInt32(&attempts[i], 1)
+			}
+			return flyt.NewResult("processed"), nil
+		}).
+		WithPostFunc(func(ctx context.Context, s *flyt.SharedStore, items, results []flyt.Result) (flyt.Action, error) {
+			for _, r := range results {
+				if !r.IsError() && r.Value() == any("processed") {
+					slotsOK++
+				}
+			}
+			return "done", nil
+		})
+	_, err = flyt.Run(context.Background(), s2, flyt.NewSharedStore())
+	return
+}
+
 func runC09(c *Cfg) {
 	r := c.Rep
 	if RaceEnabled {
@@ -1109,6 +1182,20 @@ func runC09(c *Cfg) {
 						idx++
 					}
 				}
+			}
+		}
+	}
+	// the context carries a deadline that is nearer than ONE retry wait (but far enough for the work at hand, which needs
+	// no retry at all): every item is executed, nothing is presented as a success that never ran
+	for _, cc := range []int{0, 1, 3} {
+		for _, stop := range []bool{true, false} {
+			for _, budget := range []int{2, 4} {
+				n := 4
+				it := make([]ItemScript, n)
+				for j := range it {
+					it[j].K = 1
+				}
+				cases = append(cases, &BatchCase{Family: "deadline-nearer-than-one-retry-wait", N: n, C: cc, Stop: stop, SetMode: true, Budget: budget, Items: it, Shape: "results", Build: []string{"builder", "builder-mode-first"}[budget/2%2], ExecStyle: []string{"result", "any"}[cc%2], WaitMs: 6000, FarDeadlineMs: 2500})
 			}
 		}
 	}
